@@ -1189,8 +1189,8 @@ func c15EndToEnd(c *Ctx, rt *core.Runtime, pr *c15Pair, n int) {
 					"mrp#2 exits through the signal-handler path (it had left %d object(s) registered with util.RegisterSignalHandler); "+
 					"afterwards _lock exists = %v and mrp#3's attach for writing succeeded = %v while mrp#1 is still alive",
 					len(left), lockErr == nil, err3 == nil),
-				Input: map[string]interface{}{"history": "L1,L2(refused),S2,L3", "program": pr.a.text},
-				Impl:  map[string]interface{}{"lock_file_exists": lockErr == nil, "third_attach_succeeded": err3 == nil},
+				Input:  map[string]interface{}{"history": "L1,L2(refused),S2,L3", "program": pr.a.text},
+				Impl:   map[string]interface{}{"lock_file_exists": lockErr == nil, "third_attach_succeeded": err3 == nil},
 				Expect: "lock file kept, third attach refused", Broken: "theorem Props.C15.at_most_one_writer"})
 			if err3 == nil {
 				p3.Unlock()
@@ -1281,8 +1281,8 @@ func c15LockHistory(c *Ctx, rt *core.Runtime, pr *c15Pair, n int) {
 			got = append(got, "1")
 			if !holds && had && !lockExists() {
 				r.violate(Violation{Kind: "property", Key: "C15:refused-attacher-removed-lock",
-					What:  fmt.Sprintf("process %d, which does not hold the pipestance (its attach was refused), died through the signal-handler path and removed the live holder's _lock", p),
-					Input: map[string]interface{}{"history": strings.Join(ops, ","), "program": pr.a.text},
+					What:   fmt.Sprintf("process %d, which does not hold the pipestance (its attach was refused), died through the signal-handler path and removed the live holder's _lock", p),
+					Input:  map[string]interface{}{"history": strings.Join(ops, ","), "program": pr.a.text},
 					Broken: "theorem Props.C15.at_most_one_writer"})
 			}
 		default:
@@ -1299,7 +1299,7 @@ func c15LockHistory(c *Ctx, rt *core.Runtime, pr *c15Pair, n int) {
 		}
 		if len(held) > 1 {
 			r.violate(Violation{Kind: "property", Key: "C15:two-writers", What: "two runtimes hold the same pipestance for writing",
-				Input: map[string]interface{}{"history": strings.Join(ops, ","), "program": pr.a.text},
+				Input:  map[string]interface{}{"history": strings.Join(ops, ","), "program": pr.a.text},
 				Broken: "theorem Props.C15.at_most_one_writer"})
 			break
 		}
